@@ -439,43 +439,47 @@ func c023(c *an.Ctx, p *an.Prog) {
 	// (b) nil guards on Params lookups
 	nLook := 0
 	for _, fn := range storeFns(p) {
-		for _, b := range fn.Blocks {
-			for _, in := range b.Instrs {
-				ci, ok := in.(ssa.CallInstruction)
-				if !ok || !ci.Common().IsInvoke() {
-					continue
+		for _, in := range an.DeepInstrs(fn) {
+			ci, ok := in.(ssa.CallInstruction)
+			if !ok || !ci.Common().IsInvoke() || !strings.HasSuffix(ci.Common().Value.Type().String(), "/store.Hasher") {
+				continue
+			}
+			isLookupTerm := func(h *an.Term) bool {
+				if h.Op == "extract" {
+					h = h.Args[0]
 				}
-				if _, isLookup := ci.Common().Value.(*ssa.Lookup); !isLookup {
-					// value may be an Extract of a comma-ok lookup
-					if ex, ok := ci.Common().Value.(*ssa.Extract); !ok {
-						continue
-					} else if _, ok := ex.Tuple.(*ssa.Lookup); !ok {
-						continue
-					}
+				return h.Op == "lookup"
+			}
+			var bad []string
+			look := false
+			an.EnumPaths(fn, nil, in, func(s *an.PathState) {
+				h := s.CallArgs(ci)[0]
+				if !isLookupTerm(h) {
+					return
 				}
-				nLook++
-				var bad []string
-				an.EnumPaths(fn, nil, in, func(s *an.PathState) {
-					h := s.CallArgs(ci)[0]
-					okNN := s.NonNil(h)
-					if h.Op == "extract" {
-						// v, ok := m[k]; ok == true
-						for _, a := range s.Atoms {
-							if a.Op == "true" && a.A.Op == "extract" && a.A.Aux == "1" && a.A.Args[0].K == h.Args[0].K {
-								okNN = true
-							}
+				look = true
+				okNN := s.NonNil(h)
+				if h.Op == "extract" {
+					// v, ok := m[k]; ok == true
+					for _, a := range s.Atoms {
+						if a.Op == "true" && a.A.Op == "extract" && a.A.Aux == "1" && a.A.Args[0].K == h.Args[0].K {
+							okNN = true
 						}
 					}
-					if !okNN {
-						bad = append(bad, "method "+ci.Common().Method.Name()+" invoked on a Params[...] lookup that may be nil (path "+s.BlockPath()+")")
-					}
-				})
-				c.Check(len(bad) == 0, "C02.3", fnKey(fn)+"|nil-guard:"+ci.Common().Method.Name(), p.InstrPos(in), "lookup result tested != nil before the call", strings.Join(uniqS(bad), "; "))
+				}
+				if !okNN {
+					bad = append(bad, "method "+ci.Common().Method.Name()+" invoked on a Params[...] lookup that may be nil (path "+s.BlockPath()+")")
+				}
+			})
+			if !look {
+				continue
 			}
+			nLook++
+			c.Check(len(bad) == 0, "C02.3", fnKey(fn)+"|nil-guard:"+ci.Common().Method.Name(), p.InstrPos(in), "lookup result tested != nil before the call", strings.Join(uniqS(bad), "; "))
 		}
 	}
-	if nLook < 5 {
-		c.Undecided("C02.3", "nil-guards", "-", fmt.Sprintf("VACUOUS: %d method calls on Params lookups, confirmed floor 5", nLook))
+	if nLook < 3 {
+		c.Undecided("C02.3", "nil-guards", "-", fmt.Sprintf("VACUOUS: %d method calls on Params lookups, need at least the 3 users of a parameter-set (write, support test, authentication)", nLook))
 	}
 	kdfPreconditions(c, p, "C02.3")
 }
